@@ -44,6 +44,7 @@ impl FromStr for BigUint {
 pub(super) fn from_bitwise_digits_le(v: &[u8], bits: u8) -> BigUint {
     debug_assert!(!v.is_empty() && bits <= 8 && big_digit::BITS % bits == 0);
     debug_assert!(v.iter().all(|&c| BigDigit::from(c) < (1 << bits)));
+    verif_probe!(FromBitwiseExact);
 
     let digits_per_big_digit = big_digit::BITS / bits;
 
@@ -65,6 +66,7 @@ pub(super) fn from_bitwise_digits_le(v: &[u8], bits: u8) -> BigUint {
 fn from_inexact_bitwise_digits_le(v: &[u8], bits: u8) -> BigUint {
     debug_assert!(!v.is_empty() && bits <= 8 && big_digit::BITS % bits != 0);
     debug_assert!(v.iter().all(|&c| BigDigit::from(c) < (1 << bits)));
+    verif_probe!(FromBitwiseInexact);
 
     let total_bits = (v.len() as u64).saturating_mul(bits.into());
     let big_digits = Integer::div_ceil(&total_bits, &big_digit::BITS.into())
@@ -124,6 +126,11 @@ fn from_radix_digits_be(v: &[u8], radix: u32) -> BigUint {
 
     let r = v.len() % power;
     let i = if r == 0 { power } else { r };
+    if r == 0 {
+        verif_probe!(FromRadixHeadFull);
+    } else {
+        verif_probe!(FromRadixHeadPartial);
+    }
     let (head, tail) = v.split_at(i);
 
     let first = head
@@ -308,6 +315,9 @@ fn high_bits_to_u64(v: &BigUint) -> u64 {
                     #[allow(clippy::useless_conversion)]
                     let masked = u64::from(*d) << (64 - (digit_bits - bits_want) as u32);
                     ret |= (masked != 0) as u64;
+                    if masked != 0 && bits_want == 0 {
+                        verif_probe!(HighBitsSticky);
+                    }
                 }
 
                 ret_bits += bits_want;
@@ -372,6 +382,7 @@ impl ToPrimitive for BigUint {
         let exponent = self.bits() - u64::from(fls(mantissa));
 
         if exponent > f32::MAX_EXP as u64 {
+            verif_probe!(FloatInfinity);
             Some(f32::INFINITY)
         } else {
             Some((mantissa as f32) * 2.0f32.powi(exponent as i32))
@@ -384,6 +395,7 @@ impl ToPrimitive for BigUint {
         let exponent = self.bits() - u64::from(fls(mantissa));
 
         if exponent > f64::MAX_EXP as u64 {
+            verif_probe!(FloatInfinity);
             Some(f64::INFINITY)
         } else {
             Some((mantissa as f64) * 2.0f64.powi(exponent as i32))
@@ -600,6 +612,7 @@ impl From<bool> for BigUint {
 // Extract bitwise digits that evenly divide BigDigit
 pub(super) fn to_bitwise_digits_le(u: &BigUint, bits: u8) -> Vec<u8> {
     debug_assert!(!u.is_zero() && bits <= 8 && big_digit::BITS % bits == 0);
+    verif_probe!(ToBitwiseExact);
 
     let last_i = u.data.len() - 1;
     let mask: BigDigit = (1 << bits) - 1;
@@ -628,6 +641,7 @@ pub(super) fn to_bitwise_digits_le(u: &BigUint, bits: u8) -> Vec<u8> {
 // Extract bitwise digits that don't evenly divide BigDigit
 fn to_inexact_bitwise_digits_le(u: &BigUint, bits: u8) -> Vec<u8> {
     debug_assert!(!u.is_zero() && bits <= 8 && big_digit::BITS % bits != 0);
+    verif_probe!(ToBitwiseInexact);
 
     let mask: BigDigit = (1 << bits) - 1;
     let digits = Integer::div_ceil(&u.bits(), &u64::from(bits))
@@ -701,6 +715,7 @@ pub(super) fn to_radix_digits_le(u: &BigUint, radix: u32) -> Vec<u8> {
     // The threshold for this was chosen by anecdotal performance measurements to
     // approximate where this starts to make a noticeable difference.
     if digits.data.len() >= 64 {
+        verif_probe!(ToRadixBigBase);
         let mut big_base = BigUint::from(base);
         let mut big_power = 1usize;
 
@@ -714,6 +729,7 @@ pub(super) fn to_radix_digits_le(u: &BigUint, radix: u32) -> Vec<u8> {
         // This outer loop will run approximately √n times.
         while digits > big_base {
             // This is still the dominating factor, with n digits divided by √n digits.
+            verif_probe!(ToRadixBigBaseIter);
             let (q, mut big_r) = digits.div_rem(&big_base);
             digits = q;
 
@@ -730,6 +746,7 @@ pub(super) fn to_radix_digits_le(u: &BigUint, radix: u32) -> Vec<u8> {
     }
 
     while digits.data.len() > 1 {
+        verif_probe!(ToRadixSmallLoop);
         let (q, mut r) = div_rem_digit(digits, base);
         for _ in 0..power {
             res.push((r % radix) as u8);
